@@ -10,6 +10,9 @@ mod data;
 mod driver;
 mod env;
 mod fault;
+
+#[global_allocator]
+static GLOBAL_ALLOCATOR: fault::PoisoningAllocator = fault::PoisoningAllocator;
 mod fp;
 mod prng;
 mod report;
